@@ -14,6 +14,7 @@ import (
 // runs already).
 type ctxModel struct {
 	lib      string // this context's sys.path directory
+	idx      int    // the context's index (the embedder's per-context configuration module says 100+idx)
 	marker   string // initial shm.val of the module found there
 	tag      string // CT: the last character of the context's first sys.path entry
 	vals     map[string]string
@@ -26,12 +27,12 @@ type ctxModel struct {
 	hlpOK    bool // hlp (and through it cfg) already imported
 }
 
-func newCtxModel(lib, marker string) *ctxModel {
+func newCtxModel(lib, marker string, idx int) *ctxModel {
 	tag := ""
 	if lib != "" {
 		tag = lib[len(lib)-1:]
 	}
-	return &ctxModel{lib: lib, marker: marker, tag: tag, vals: map[string]string{}, path: []string{lib, "/simcwd/common"}, argv: []string{"sim"}, shmDict: map[string]bool{}}
+	return &ctxModel{idx: idx, lib: lib, marker: marker, tag: tag, vals: map[string]string{}, path: []string{lib, "/simcwd/common"}, argv: []string{"sim"}, shmDict: map[string]bool{}}
 }
 
 func q(s string) string { return strconv.Quote(s) }
@@ -220,6 +221,12 @@ func (m *ctxModel) read(loc string) string {
 			return v
 		}
 		return "(None,None)"
+	case "modimpl.conf":
+		note := "none"
+		if v, ok := m.vals[loc]; ok {
+			note = v
+		}
+		return fmt.Sprintf("(%d,%s)", 100+m.idx, q(note))
 	}
 	return "None"
 }
@@ -233,8 +240,8 @@ func sortStrings(a []string) {
 }
 
 // expectedReads returns, for a program, statement index -> expected log line.
-func expectedReads(p Program, lib, marker string) map[int]string {
-	m := newCtxModel(lib, marker)
+func expectedReads(p Program, lib, marker string, idx int) map[int]string {
+	m := newCtxModel(lib, marker, idx)
 	out := map[int]string{}
 	for i, s := range p.Stmts {
 		switch s.K {
